@@ -2,6 +2,7 @@ package main
 
 import (
 	"fmt"
+	"reflect"
 	"regexp"
 	"regexp/syntax"
 	"strings"
@@ -9,6 +10,7 @@ import (
 	"unicode/utf8"
 
 	"github.com/coregx/coregex"
+	"github.com/coregx/coregex/meta"
 	"github.com/coregx/coregex/nfa"
 )
 
@@ -224,6 +226,7 @@ func checkC02(r *Report, known []Finding) {
 	obs := append(obsFind(), obsReader()[1])
 	runE2E(r, known, e2eSpec{prop: "C02", obs: obs, np: 1500, nh: 10, npT: 20000, nhT: 16, nontriv: func(w string) bool { return w != "nil" && w != `""` }})
 	c02ReverseTie(r)
+	c02RevSuffixTie(r)
 	replayKnownExamples(r, known, "C02")
 }
 
@@ -299,5 +302,140 @@ func c02ReverseTie(r *Report) {
 		t.Disagreements++
 		r.Violate(fmt.Sprintf("reverse automaton of %q (%s): the code and the Lean transliteration differ: code=%.120s lean=%.120s", c.p, c.kind, c.want, got),
 			map[string]any{"pattern": c.p, "kind": c.kind, "request": c.req, "code": c.want, "lean": got, "correspondence": "Cx.Rev.reverse vs nfa/reverse.go"}, true)
+	}
+}
+
+// c02RevSuffixTie: for generated patterns that select UseReverseSuffix, the Lean model of meta/reverse_suffix.go
+// (Cx.RevSuffix, run with oracles derived by brute force from regexp's own answers on every substring) must return what
+// the real searcher returns, at every start offset, and what regexp returns.  The three parameters the constructor
+// computed (suffix literal, matchStartZero, lineBounded) are read from the compiled engine by reflection.
+func c02RevSuffixTie(r *Report) {
+	shapes := []string{`[a-z]+\.txt`, `.*\.txt`, `.*?\.txt`, `\w+@\w+\.com`, `[0-9][a-z.]+\.txt`, `(?s).*z`, `.+keyword`, `[a-z]+aba`, `.+aba`, `\w+abab`, `[^\s]+\.\.`, `(?:a|bc)+xyz`,
+		`[a-c]*?foo`, `(?s).+?end`, `[^\n]+;`, `(\w+)=end`, `.*connection.*?timeout`, `x[ab]*y+\.log`, `.*foo.*bar`}
+	root := NewRNG(r.Seed)
+	type cs struct {
+		p, req, got, std string
+		h                []byte
+		at               int
+	}
+	var cases []cs
+	used := 0
+	for i := 0; i < 400 && used < 40; i++ {
+		rng := root.Fork(0x25F + uint64(i))
+		var p string
+		if i < len(shapes) {
+			p = shapes[i]
+		} else {
+			p = MutatePattern(rng, shapes[rng.Intn(len(shapes))])
+		}
+		std, err := regexp.Compile(p)
+		if err != nil {
+			continue
+		}
+		eng, err := meta.Compile(p)
+		if err != nil || eng.Strategy() != meta.UseReverseSuffix {
+			continue
+		}
+		sf := reflect.ValueOf(eng).Elem().FieldByName("reverseSuffixSearcher")
+		if !sf.IsValid() || sf.IsNil() {
+			continue
+		}
+		s := sf.Elem()
+		fb, fz, fl := s.FieldByName("suffixBytes"), s.FieldByName("matchStartZero"), s.FieldByName("lineBounded")
+		if !fb.IsValid() || !fz.IsValid() || !fl.IsValid() {
+			r.Violate("the reverse-suffix searcher no longer has the fields the model is parameterised by (suffixBytes, matchStartZero, lineBounded)",
+				map[string]any{"pattern": p, "correspondence": "Cx.RevSuffix vs meta/reverse_suffix.go"}, true)
+			return
+		}
+		suffix := append([]byte(nil), fb.Bytes()...)
+		if len(suffix) == 0 {
+			continue
+		}
+		used++
+		full := regexp.MustCompile(`\A(?:` + p + `)\z`)
+		flags := fmt.Sprintf("%d%d", map[bool]int{false: 0, true: 1}[fz.Bool()], map[bool]int{false: 0, true: 1}[fl.Bool()])
+		ast, _ := syntax.Parse(p, syntax.Perl)
+		var hays [][]byte
+		hays = append(hays, nil, suffix, append(append([]byte("a"), suffix...), suffix...), append(append([]byte("a\n"), suffix...), '\n'))
+		for k := 0; k < 10; k++ {
+			h := GenHaystack(rng, ast, true)
+			if len(h) > 18 {
+				h = h[:18]
+			}
+			hays = append(hays, h)
+		}
+		r.Case("rsfx\x00"+p, true)
+		for _, h := range hays {
+			var mt []string
+			for a := 0; a <= len(h); a++ {
+				for e := a; e <= len(h); e++ {
+					if full.Match(h[a:e]) {
+						// regexp on the substring loses the context; only assertion-free patterns select this strategy
+						mt = append(mt, fmt.Sprintf("%d.%d", a, e))
+					}
+				}
+			}
+			mts := "-"
+			if len(mt) > 0 {
+				mts = strings.Join(mt, ",")
+			}
+			var ref []string
+			for a := 0; a <= len(h); a++ {
+				loc := std.FindIndex(h[a:])
+				if loc == nil {
+					ref = append(ref, "x")
+				} else {
+					ref = append(ref, fmt.Sprintf("%d.%d", loc[0]+a, loc[1]+a))
+				}
+			}
+			for at := 0; at <= len(h); at++ {
+				for _, mode := range []string{"00", "11", "20"} {
+					got := "none"
+					if s, e, ok := eng.FindIndicesAt(h, at); ok {
+						got = fmt.Sprintf("%d.%d", s, e)
+					}
+					if at == 0 {
+						got += fmt.Sprintf(" %v", eng.IsMatch(h))
+					}
+					cases = append(cases, cs{p, fmt.Sprintf("revsuffix run %d %s %s %s%s %s %s", at, hexOf(h), hexOf(suffix), flags, mode, mts, strings.Join(ref, ",")), got, ref[at], h, at})
+				}
+			}
+		}
+	}
+	var reqs []string
+	for _, c := range cases {
+		reqs = append(reqs, c.req)
+	}
+	ans, err := RunLean(reqs)
+	if err != nil || len(ans) != len(reqs) {
+		r.Violate(fmt.Sprintf("Lean driver failed on the reverse-suffix strategy tie: %v", err), map[string]any{"correspondence": "Cx.RevSuffix"}, true)
+		return
+	}
+	t := r.Tie("Lean model of the reverse-suffix strategy (brute-force oracles, 3 cut-off policies) == meta.Engine under UseReverseSuffix == regexp")
+	for i, c := range cases {
+		t.Cases++
+		f := strings.Fields(ans[i])
+		if len(f) < 2 {
+			t.Disagreements++
+			r.Violate("reverse-suffix model: malformed answer "+ans[i], map[string]any{"request": c.req}, true)
+			continue
+		}
+		model := f[0]
+		if c.at == 0 {
+			model += " " + f[1]
+		}
+		stdWant := strings.ReplaceAll(c.std, "x", "none")
+		codeSpan := strings.Fields(c.got)[0]
+		if model == c.got && codeSpan == stdWant {
+			continue
+		}
+		t.Disagreements++
+		if codeSpan != stdWant {
+			r.Violate(fmt.Sprintf("UseReverseSuffix: FindIndicesAt of %q on %q at=%d: coregex=%s regexp=%s (model=%s)", c.p, c.h, c.at, codeSpan, stdWant, f[0]),
+				map[string]any{"pattern": c.p, "haystack_hex": hexOf(c.h), "at": c.at, "coregex": codeSpan, "regexp": stdWant, "model": f[0], "request": c.req}, false)
+		} else {
+			r.Violate(fmt.Sprintf("reverse-suffix strategy: the code and the Lean model differ on %q, haystack %q at=%d: code=%s model=%s", c.p, c.h, c.at, c.got, model),
+				map[string]any{"pattern": c.p, "haystack_hex": hexOf(c.h), "at": c.at, "code": c.got, "model": model, "request": c.req, "correspondence": "Cx.RevSuffix vs meta/reverse_suffix.go"}, true)
+		}
 	}
 }
